@@ -370,6 +370,10 @@ func signerSpec(r *rng, alg int64) (string, string) {
 		v = fmt.Sprintf("T:%d:%d", -36, kid)
 	case 5:
 		s = fmt.Sprintf("T:%d:%d", -35, kid)
+	case 6, 7:
+		// re-entrant spies: same results as the transparent ones
+		s = fmt.Sprintf("R:%d:%d", alg, kid)
+		v = fmt.Sprintf("R:%d:%d", alg, kid)
 	}
 	return s, v
 }
